@@ -212,7 +212,7 @@ def cached_store_write_back(seed, params):
 
     def writer(proc, event):
         i = _w(event)
-        k = KEYS[i % 4]
+        k = KEYS[(i // 3) % 2]  # write-back writers and the readers share a0/h1
         if i % 3 == 0:  # write-back path
             yield from cs.put(k, i)
             wb.on_write(k, i)
@@ -222,6 +222,7 @@ def cached_store_write_back(seed, params):
                 wb.on_flush(keys)
                 proc.log.append(("flush", n))
         elif i % 3 == 1:  # write-around path: store first, then invalidate the cached copy
+            k = KEYS[4 + (i // 3) % 2]
             yield from kv.put(k, i)
             wa.on_write(k, i)
             for kk in wa.get_keys_to_invalidate():
@@ -232,7 +233,7 @@ def cached_store_write_back(seed, params):
             v = yield from cs.get(k)
             yield hold
             wt.on_write(k, v)
-            ok = yield from cs.delete(k)
+            ok = (yield from cs.delete(k)) if i % 2 else None
             proc.log.append(("rd", v, ok))
         proc.done += 1
 
@@ -265,8 +266,9 @@ def soft_ttl_refresh(seed, params):
     for j, k in enumerate(KEYS):
         kv.put_sync(k, 100 + j)
     soft = p.lat(2)
-    hard = soft * 4
-    c = SoftTTLCache("sttl", kv, soft_ttl=soft, hard_ttl=hard, cache_capacity=p.cap(2), cache_read_latency=p.lat(3))
+    crl = p.lat(3)
+    hard = soft * 3 + crl * 4 + kv.read_latency * 2  # wide enough for a stale window after one cached read
+    c = SoftTTLCache("sttl", kv, soft_ttl=soft, hard_ttl=hard, cache_capacity=p.cap(2) + 1, cache_read_latency=crl)
 
     def body(proc, event):
         i = _w(event)
@@ -275,6 +277,9 @@ def soft_ttl_refresh(seed, params):
         v1 = yield from c.get(k)  # fresh hit
         yield soft * 1.5
         v2 = yield from c.get(k)  # stale hit -> background refresh
+        if i % 3 == 2:
+            c.invalidate(k)  # entry dropped while its refresh is in flight -> coalesced hard miss
+            v2 = yield from c.get(k)
         v3 = yield from c.get(KEYS[2 + i % 3])  # other keys: LRU eviction, maybe of a refreshing key
         v4 = yield from c.get(k)  # refresh in flight: stale hit again or coalesced miss
         if i % 3 == 0:
@@ -312,6 +317,7 @@ def multi_tier(seed, params):
     mt = MultiTierCache("mt", tiers=[l1, l2], backing_store=kv, promotion_policy=promo)
     warmer = CacheWarmer("l2warmer", cache=l2, keys_to_warm=list(KEYS), warmup_rate=1.0 / p.lat(5), warmup_latency=p.lat(6))
     hold = p.hold()
+    warm_time = len(KEYS) * (p.lat(5) + p.lat(0) + p.lat(4)) + hold
 
     def body(proc, event):
         i = _w(event)
@@ -332,7 +338,10 @@ def multi_tier(seed, params):
             a = yield from mt.get(k)
             yield hold
             b = yield from mt.get(KEYS[4 + i % 2])
-        proc.log.append((a, b))
+        yield warm_time  # by now the warmer has filled L2 while L1 (small) has evicted
+        c = yield from mt.get(KEYS[(i + 2) % len(KEYS)])
+        d = yield from mt.get(KEYS[(i + 2) % len(KEYS)])
+        proc.log.append((a, b, c, d))
         proc.done += 1
 
     arr = p.arrivals(8)
@@ -471,9 +480,11 @@ def cached_sharded_replicated(seed, params):
 # Database
 
 
-def _db_body(db, hold):
+def _db_body(db, hold, late_after=None, late_by=0.0):
     def body(proc, event):
         i = _w(event)
+        if late_after is not None and i >= late_after:
+            yield late_by  # arrives once the first `late_after` clients own the whole pool
         if i % 4 == 0:
             r = yield from db.execute(f"SELECT * FROM t WHERE id = {i}")
             proc.log.append(("q", r))
@@ -498,8 +509,9 @@ def _db_body(db, hold):
 
 @scenario("datastore.database_pool_exhaustion", "datastore")
 def database_pool_exhaustion(seed, params):
-    """More clients than max_connections: the rest poll for a connection while holders
-    sit in transactions (commit and rollback)."""
+    """More clients than max_connections.  The first `cap` clients create the pool, all others
+    arrive a little later (still bunched) and must poll for a connection while the holders sit
+    in transactions (commit and rollback)."""
     p = P(params, seed)
     db = Database(
         "db",
@@ -511,7 +523,7 @@ def database_pool_exhaustion(seed, params):
     )
     db.create_table("t")
     arr = p.arrivals(8)
-    procs = [Proc(f"c{i}", _db_body(db, p.hold())) for i in range(len(arr))]
+    procs = [Proc(f"c{i}", _db_body(db, p.hold(), late_after=p.cap(2), late_by=p.lat(1) * 1.5)) for i in range(len(arr))]
     sim = make_sim([db, *procs], p.end())
     _start(sim, procs, arr)
     return Scenario(sim, {"db": db}, "datastore", True, len(arr))
@@ -519,7 +531,7 @@ def database_pool_exhaustion(seed, params):
 
 @scenario("datastore.database_callable_latency", "datastore")
 def database_callable_latency(seed, params):
-    """Same pool contention with a per-query latency function and a single connection."""
+    """Pure burst on a single-connection pool with a per-query latency function."""
     p = P(params, seed)
     l0, l1 = p.lat(0), p.lat(4)
 
@@ -582,8 +594,9 @@ def cache_warmer_cold_start(seed, params):
 
 @scenario("datastore.cache_warmer_rewarm", "datastore")
 def cache_warmer_rewarm(seed, params):
-    """Re-warming during the run: an operator entity flushes the cache at t > 0 and schedules
-    the event returned by `warmer.start_warming()` exactly as returned."""
+    """Cold-start warm-up scheduled before the run, then a re-warm during the run: an operator
+    entity flushes the cache at t > 0 and schedules the event returned by
+    `warmer.start_warming()` exactly as returned."""
     p = P(params, seed)
     kv, cache = _warm_setup(p, seed, int(p.x("v", seed)))
     warmer = CacheWarmer("warmer", cache=cache, keys_to_warm=list(KEYS), warmup_rate=1.0 / p.lat(5), warmup_latency=p.lat(6))
@@ -591,6 +604,8 @@ def cache_warmer_rewarm(seed, params):
 
     def operator(proc, event):
         yield hold
+        while not warmer.is_complete:  # let the cold-start warm-up finish first
+            yield max(hold, 0.001)
         cache.invalidate_all()
         proc.done += 1
         return [warmer.start_warming()]
@@ -599,7 +614,7 @@ def cache_warmer_rewarm(seed, params):
         i = _w(event)
         k = KEYS[i % 3]
         a = yield from cache.get(k)
-        yield hold * 2
+        yield hold * 2 + len(KEYS) * (p.lat(5) + p.lat(0))
         b = yield from cache.get(k)
         proc.log.append((a, b, warmer.is_complete))
         proc.done += 1
@@ -608,6 +623,7 @@ def cache_warmer_rewarm(seed, params):
     procs = [Proc(f"w{i}", body) for i in range(len(arr))]
     op = Proc("operator", operator)
     sim = make_sim([kv, cache, warmer, op, *procs], p.end())
+    sim.schedule(warmer.start_warming())
     _start(sim, procs, arr)
     sim.schedule(ev(max(arr), "start", op, worker=-1))
-    return Scenario(sim, {"warmer": warmer, "cache": cache}, "datastore", True, len(arr) + 1)
+    return Scenario(sim, {"warmer": warmer, "cache": cache}, "datastore", True, len(arr) + 2)
